@@ -46,6 +46,16 @@
 	}                                                                              \
 	VP_MSNAP_END
 
+/* accessors (also called, not replaced, inside nni_msg_pull_up: names of their own) */
+#define VP_SNAP_ACC(m)                                                             \
+	VP_MSNAP_BEGIN                                                                 \
+	size_t vp_in_acc_hlen = (m)->m_header_len, vp_in_acc_len = (m)->m_body.ch_len; \
+	VP_MSNAP_END
+#define VP_SNAP_ROOM(c)                                                            \
+	VP_MSNAP_BEGIN                                                                 \
+	size_t vp_in_room_cap = (c)->ch_cap, vp_in_room_len = (c)->ch_len;             \
+	VP_MSNAP_END
+
 /* first four body bytes (the word nni_*_trim_u32 decodes) */
 #define VP_SNAP_B4(c)                                                              \
 	VP_MSNAP_BEGIN                                                                 \
